@@ -21,7 +21,7 @@ var verifStage1ErrInjected = false
 
 var verifIndexLimit = indexSizeWithSafetyBuffer
 
-var verifWidthsU1 = []int{1, 2, 5, 8, 61}
+var verifWidthsU1 = []int{1, 5, 61}
 
 func verifLayoutU1(maxK int) []int {
 	K := 2 + verifChoice("K", maxK-1)
@@ -37,17 +37,24 @@ func verifLayoutU1(maxK int) []int {
 }
 
 func verifHavocInternal(pj *internalParsedJson) {
-	// what any earlier Parse/ParseND (successful or failed, either string mode) and in-place edits may have left
-	pj.Tape = make([]uint64, 3, 3+verifChoice("stale.tapecap", 2)*40)
+	// what any earlier Parse/ParseND (successful or failed, either string mode) and in-place edits may have left.
+	// The structural alternatives (capacities either side of what is needed, nil or present buffers/channel, leftover
+	// scope entries) are coupled into three variants; all contents are symbolic.
+	v := verifChoice("stale.variant", 3)
+	big, some, scopes := v >= 1, v == 1, v
+	tapecap := 3
+	if big {
+		tapecap = 43
+	}
+	pj.Tape = make([]uint64, 3, tapecap)
 	for i := range pj.Tape {
 		pj.Tape[i] = nondetU64("stale.tape")
 	}
-	if verifChoice("stale.strings", 2) == 1 {
+	if some {
 		pj.Strings = &TStrings{B: nondetBytes("stale.strings.b", 3)}
 	}
 	pj.Message = nondetBytes("stale.message", 2)
-	n := verifChoice("stale.scopes", 3)
-	pj.containingScopeOffset = make([]uint64, n, maxdepth)
+	pj.containingScopeOffset = make([]uint64, scopes, maxdepth)
 	for i := range pj.containingScopeOffset {
 		pj.containingScopeOffset[i] = nondetU64("stale.scope")
 	}
@@ -55,7 +62,7 @@ func verifHavocInternal(pj *internalParsedJson) {
 	pj.ndjson = nondetU64("stale.ndjson")
 	pj.buffersOffset = nondetU64("stale.buffersOffset")
 	pj.indexesChan = indexChan{index: int(nondetU8("stale.ic.index")), length: int(nondetU8("stale.ic.length")), indexes: &pj.buffers[3]}
-	if verifChoice("stale.chan", 2) == 1 {
+	if v != 1 {
 		// representation invariant: an existing channel is empty and has the capacity parseMessage would give it
 		pj.indexChans = make(chan indexChan, indexSlots-2)
 	}
@@ -66,6 +73,13 @@ func verifHarness_U1_ParseMessage() {
 	K := len(pos)
 	N := pos[K-1] + 1
 	msg := nondetBytes("msg", N)
+	// long gaps: only the first 8 bytes of a slot are free, the rest of the gap is plain white space (the gap is there to
+	// put tokens into different 64-byte blocks, not to vary its contents)
+	for i := 0; i < K-1; i++ {
+		for q := pos[i] + 8; q < pos[i+1]; q++ {
+			msg[q] = ' '
+		}
+	}
 	nd := verifChoice("ndjson", 2)
 	want := make([]uint8, N)
 	for _, p := range pos {
@@ -76,8 +90,8 @@ func verifHarness_U1_ParseMessage() {
 		verifAssume(b != '\\')
 	}
 	// surrounding white space is trimmed by parseMessage
-	lead := verifChoice("lead", 2)
-	trail := verifChoice("trail", 2)
+	lead := verifChoice("ws", 2)
+	trail := lead
 	raw := make([]byte, 0, N+2)
 	if lead == 1 {
 		raw = append(raw, ' ')
@@ -92,8 +106,8 @@ func verifHarness_U1_ParseMessage() {
 		verifHavocInternal(pj)
 	}
 	pj.copyStrings = verifChoice("copy", 2) == 1
-	if verifChoice("stage1err", 2) == 1 {
-		verifStage1ErrAt = verifChoice("stage1errat", 3)
+	if e := verifChoice("stage1err", 3); e >= 1 {
+		verifStage1ErrAt = e - 1
 	}
 	err := pj.parseMessage(raw, nd == 1)
 	verifReach("U1.returned")
